@@ -3,6 +3,7 @@ package props
 import (
 	"fmt"
 	"go/ast"
+	"go/token"
 	"go/types"
 	"regexp"
 	"sort"
@@ -519,5 +520,63 @@ func checkInnerTextCollector(p *core.Program, r *core.Report, rule string) {
 			},
 		}
 		core.CheckDecisionList(r, rule, "InnerText(finder)", paths, atoms, spec)
+	}
+	// and nothing gets around the collector: every string InnerText returns is made from the
+	// buffer the collector fills (or is a constant) - a shortcut that returns the text of a
+	// child directly skips the tests above for the element itself
+	if itf := p.Func(core.ExpandKey(domutilPkg + ".InnerText")); itf != nil && innerFinder != nil {
+		fn := p.Inlined(itf)
+		var bad []string
+		nRet := 0
+		seen := map[ssa.Value]bool{}
+		var walk func(v ssa.Value, pos token.Pos)
+		walk = func(v ssa.Value, pos token.Pos) {
+			if seen[v] {
+				return
+			}
+			seen[v] = true
+			switch x := v.(type) {
+			case *ssa.Const:
+			case *ssa.Phi:
+				for _, e := range x.Edges {
+					walk(e, pos)
+				}
+			case *ssa.BinOp:
+				walk(x.X, pos)
+				walk(x.Y, pos)
+			case *ssa.Slice:
+				walk(x.X, pos)
+			case *ssa.Call:
+				if core.IsCallTo(x, "(*bytes.Buffer).String", "(*strings.Builder).String") {
+					return
+				}
+				n := 0
+				for _, a := range x.Call.Args {
+					if bt, ok := a.Type().Underlying().(*types.Basic); ok && bt.Info()&types.IsString != 0 {
+						if _, isC := a.(*ssa.Const); !isC {
+							n++
+							walk(a, pos)
+						}
+					} else if st, ok := a.Type().Underlying().(*types.Slice); ok {
+						if bt, ok := st.Elem().Underlying().(*types.Basic); ok && bt.Info()&types.IsString != 0 {
+							n++
+							walk(a, pos)
+						}
+					}
+				}
+				if n == 0 {
+					bad = append(bad, p.Pos(pos)+": "+shortVal(core.NewCanon(p).Of(v)))
+				}
+			default:
+				bad = append(bad, p.Pos(pos)+": "+shortVal(core.NewCanon(p).Of(v)))
+			}
+		}
+		for _, ret := range core.Returns(fn) {
+			for _, res := range ret.Results {
+				nRet++
+				walk(res, ret.Pos())
+			}
+		}
+		r.Add(rule, "InnerText returns only what its collector gathered", p.Pos(itf.Pos()), nRet >= 1 && len(bad) == 0, fmt.Sprintf("%d returned values; made from something else than the collector's buffer: %v", nRet, bad))
 	}
 }
